@@ -281,11 +281,14 @@ func VerifyCosmosHeader(myHeader *CosmosHeader, info *CosmosEpochSwitchInfo) err
 		return fmt.Errorf("VerifyCosmosHeader, the size of precommits is not right!")
 	}
 	talliedVotingPower := int64(0)
-	for _, commitSig := range myHeader.Commit.Precommits {
+	for pos, commitSig := range myHeader.Commit.Precommits {
 		if commitSig == nil {
 			continue
 		}
 		idx := commitSig.ValidatorIndex
+		if idx != pos {
+			return fmt.Errorf("VerifyCosmosHeader, precommit at position %d names validator %d", pos, idx)
+		}
 		_, val := valset.GetByIndex(idx)
 		if val == nil {
 			return fmt.Errorf("VerifyCosmosHeader, validator %d doesn't exist!", idx)
